@@ -102,14 +102,16 @@ Theorem index_never_over_permits : forall t s p c m d x, index_path p = true ->
 Proof. exact PropLemmas.index_never_over_permits. Qed.
 Print Assumptions index_never_over_permits.
 
-(* ===== "... and has no effect": a store changes the object only when the access is allowed and the
-   declared type accepts the value *)
-Theorem no_effect_on_denial : forall d ok vals p v, (d <> Allow \/ ok = false) -> store d ok vals p v = (vals, false).
-Proof. exact store_no_effect. Qed.
-Print Assumptions no_effect_on_denial.
+(* ===== "... and has no effect": NOT a theorem.  The model has no function that composes the access
+   decision, the type check and the property table of an object; the clause rests on the tie: every store
+   probe (->, ->{}, [], $this->, unset, by-reference, nested append, C::$p) uses a fresh target and reads the
+   value back through a getter of the declaring class (checks/C07.py, clauses 3 and 4 of Run.check_v). *)
 
-(* ===== declared types: Types.Is is the denotation of the declared type — int, string, array, bool,
-   float, a class/interface name (any class hierarchy `sub`), nullable, union — by induction on the type *)
+(* ===== declared types: Types.Is is the denotation of the declared type — int, string, array, a
+   class/interface name (any class hierarchy `sub`), nullable, union — by induction on the type.
+   (`denote` mirrors the six Is methods constructor by constructor; what makes it a specification is only
+   that it is a relation read against the property text — the check's oracle for types is `type_is` itself,
+   i.e. the type clause rests on model = implementation plus this equivalence.) *)
 Theorem type_is_denote : forall sub t v, type_is sub t v = true <-> denote sub t v.
 Proof. exact Proofs.type_is_denote. Qed.
 Print Assumptions type_is_denote.
